@@ -336,6 +336,20 @@ func (p *c20) runSeq(x *res, adapter string, regs []int, reqs []c20Req, nativeOn
 		install()
 	}
 	item := val.Item{"h": val.Str("k"), "a": val.Str("1"), "b": val.Str("2")}
+	if len(regs) > 0 && regs[0]%2 == 1 {
+		// half of the runs dispatch on items that carry a document of the greatest depth DynamoDB allows (32 levels:
+		// the attribute value is level 1): what an item holds has no say in which callback runs
+		deep := val.Str("leaf")
+		for i := 0; i < 31; i++ {
+			if i%2 == 0 {
+				deep = val.List(deep)
+			} else {
+				deep = val.Map(map[string]val.V{"m": deep})
+			}
+		}
+		item["deep"] = deep
+		x.r.Counters["runs_on_items_of_depth_32"]++
+	}
 	for _, s := range specs {
 		// unconditional puts never consult a matcher
 		cl.Do(adapt.Op{Kind: adapt.OpPut, Table: s.Name, Item: item})
